@@ -497,6 +497,20 @@ class _NamedTuples:
 
         def idx(node, e, i):
             return ast.copy_location(ast.Subscript(value=e, slice=ast.copy_location(ast.Constant(value=i), node), ctx=ast.Load()), node)
+        # module-level tables whose every value is a record of one type: TABLE[k] / TABLE.get(k) is such a record (or None)
+        rec_tables = {}
+        for s_ in tree.body:
+            if isinstance(s_, ast.Assign) and len(s_.targets) == 1 and isinstance(s_.targets[0], ast.Name) and isinstance(s_.value, ast.Dict) and s_.value.values \
+                    and all(is_ctor(v_) for v_ in s_.value.values) and len({v_.func.id for v_ in s_.value.values}) == 1:
+                rec_tables[s_.targets[0].id] = nts[s_.value.values[0].func.id]
+
+        def from_table(e):
+            if isinstance(e, ast.Subscript) and isinstance(e.value, ast.Name) and e.value.id in rec_tables and not isinstance(e.slice, ast.Slice):
+                return rec_tables[e.value.id]
+            if isinstance(e, ast.Call) and isinstance(e.func, ast.Attribute) and e.func.attr == 'get' and isinstance(e.func.value, ast.Name) and e.func.value.id in rec_tables \
+                    and len(e.args) == 1 and not e.keywords:
+                return rec_tables[e.func.value.id]
+            return None
         # locals bound once, to a record
         for fn in [x for x in ast.walk(tree) if isinstance(x, (ast.FunctionDef, ast.AsyncFunctionDef))]:
             stores = {}
@@ -508,6 +522,9 @@ class _NamedTuples:
                 if isinstance(n, ast.Assign) and len(n.targets) == 1 and isinstance(n.targets[0], ast.Name) and is_ctor(n.value) and stores.get(n.targets[0].id) == 1 \
                         and n.targets[0].id not in {a.arg for a in fn.args.args + fn.args.kwonlyargs}:
                     recs[n.targets[0].id] = nts[n.value.func.id]
+                elif isinstance(n, ast.Assign) and len(n.targets) == 1 and isinstance(n.targets[0], ast.Name) and from_table(n.value) and stores.get(n.targets[0].id) == 1 \
+                        and n.targets[0].id not in {a.arg for a in fn.args.args + fn.args.kwonlyargs}:
+                    recs[n.targets[0].id] = from_table(n.value)
             if recs:
                 class V(ast.NodeTransformer):
                     def visit_Attribute(self_, node):
